@@ -5,6 +5,7 @@ set -u
 patch=$(readlink -f "$1"); id=$2; mode=${3:-quick}
 W=/tmp/verif-mut.$$
 git -C /repo worktree add -q --detach "$W" HEAD || exit 2
-trap 'git -C /repo worktree remove --force "$W" >/dev/null 2>&1; rm -f /verif/.build/go.$(echo "$W" | md5sum | cut -c1-8).*' EXIT
+H=$(echo "$W" | md5sum | cut -c1-8); O=/tmp/verif-mut-out.$$
+trap 'git -C /repo worktree remove --force "$W" >/dev/null 2>&1; rm -f /verif/.build/go.$H.* /verif/.build/vrun.$H /verif/.build/vrun-race.$H /verif/.build/build.$H.log; rm -rf "$O"' EXIT
 git -C "$W" apply "$patch" || { echo "patch does not apply"; exit 2; }
-cd /verif && VERIF_REPO="$W" ./check "$id" "$mode"
+cd /verif && VERIF_REPO="$W" VERIF_OUT_DIR="$O" ./check "$id" "$mode"
